@@ -34,6 +34,12 @@ claimed = {
    note="Assumed (listed in the evidence): referencedTags returns exactly the distinct names its receiver's definition references; event, saveState, makeTagInfo, startTaggingJobIfNeeded, detachConverterFromTag, tagReferencesTransitively do not touch the tag table or the referencedBy sets (trusted contracts, bodies not verified); a tag object's features are never written after creation; the new tag object passed to a handler is not yet in the table; region assumptions of the UpdateTag regions (graph well-formed where the region starts - established by the other handlers); single-goroutine confinement of the manager state. Converter attach/detach, mark updates and the uncertainty walk are not under contract.",
    tech="contract-based deductive verification: handler-preserves-invariant contracts over a symbolic heap (own VC generator over go/ssa + z3/cvc5); bounded model-based stand-in for the API",
    ref="DESIGN.md section 4 (C11)"),
+ "C04": dict(
+   cat="other",
+   text="PROVED (deductive, all inputs): the shortcut scan progressVariant.find - for every buffer pair, direction, offset, prefix, suffix and length facts: every slice expression stays inside the stored payload (prefix skip, suffix cut, fixed-size window), the window loop terminates, the direction's offset only moves forward and stays inside the payload, the other direction's offset is untouched, and whenever a match is reported the searched window starts exactly at the offset the function leaves behind (the caller adds the match end to it; a missed offset update is what makes later sequence elements see old data). BOUNDED (stand-in, not counted as proved): that payload filters agree with a plain left-to-right regular-expression scan, alone, negated, combined and chained with THEN across chunk boundaries and directions (payload-oracle).",
+   note="Assumed: bytes.Index/LastIndex return -1 or a fitting position; the regex engine is a pure function; a constant suffix is not longer than the minimal match length (C18's subject). Sequence progress (makeDataConditionFilter), expression sharing, variables and converter data sources are not under contract; the claim 'for every expression and payload' is only bounded.",
+   tech="contract-based deductive verification of the scan's window arithmetic (own VC generator over go/ssa + z3/cvc5); bounded differential stand-in against Go's regexp",
+   ref="DESIGN.md section 4 (C04)"),
  "C06": dict(
    cat="other",
    text="Sequential kernel only; the property's quantifier over interleavings of job completions with API calls is NOT decided (no schedule model in this family). PROVED (deductive, for every tag table and every bit): (1) the per-tag invalidation rule of invalidateTags at the point where the updated tag object is stored - sub-query features make every stream undecided; otherwise the undecided set keeps its members and gains the added and the reset streams, and the updated streams too when the definition uses payload or time filters (feature bits as bit-vectors); definition and match set are carried over; (2) the completion handler of a tagging job re-applies invalidateTags whenever any of the three 'arrived during the job' masks is non-empty and the result is published (ghost call log). BOUNDED (stand-in, not counted as proved): searches with tag filters over partly undecided tags agree with reading decided streams from the match set and undecided ones from the definition (tag-search stand-in).",
@@ -65,7 +71,6 @@ na = {
  "C01": "contracts not yet written in this round (planned: host table, section layout, varints) — see DESIGN 4",
  "C02": "contracts not yet written in this round (planned: result accumulator) — see DESIGN 4",
  "C03": "contracts not yet written in this round (planned: invert/operators/rule sites) — see DESIGN 4",
- "C04": "within the family in principle, but no contract is written: the matcher (progressVariant.find, progress groups) is built from closures over regexp engine calls and maps of shared expressions; the only related obligations are those of C18 (length/suffix facts the shortcuts rely on). The defect found by reading (F-C04-1: shortcuts re-anchor $ ^ \\b) is documented in DESIGN 7, not decided by a check",
  "C05": "the claim is about what gopacket's TCP reassembly/IP defragmentation deliver for every segmentation and reordering; that behaviour lives in an external library without a contract, so no function in /repo has a postcondition that can say 'what the endpoints exchanged'",
  "C06": "the property quantifies over interleavings of job completions with API calls (no schedule model in this family); its sequential kernel (invalidation handlers over map[string]*tag) needs range-over-map and aliased heap writes, which the VC generator does not support; no contract written. F-C06-1 is documented in DESIGN 7",
  "C07": "contracts not yet written in this round — see DESIGN 4",
